@@ -99,6 +99,15 @@ def _rm_first(root, d, prefix):
     os.remove(os.path.join(lv, sorted(f for f in os.listdir(lv) if f.startswith(prefix))[0]))
 
 
+def _truncate(root, d, prefix, cut, level="Level_0", which=0):
+    """cut `cut` bytes off the end of a binary file (inside the data of its last box): an unreadable input"""
+    lv = os.path.join(root, d, level)
+    fn = os.path.join(lv, sorted(f for f in os.listdir(lv) if f.startswith(prefix))[which])
+    data = open(fn, "rb").read()
+    with open(fn, "wb") as f:
+        f.write(data[:len(data) - cut])
+
+
 # (name, preparation outside the audited run, invocation)
 FAILING = [
     ("mandoline-unknown-field", None, lambda r: tools.mandoline("plt00010", "array", "out_x", ["no_such_field"], 0)),
@@ -109,6 +118,18 @@ FAILING = [
     ("colander-missing-binary", lambda r: _rm_first(r, "plt00020", "Cell_D"), lambda r: tools.colander("plt00020", "out_col", ["all"])),
     ("chk2plt-missing-binary", lambda r: _rm_first(r, "chk00005", "state_D"), lambda r: tools.chk2plt("chk00005", "out_plt")),
     ("combine-missing-binary", lambda r: _rm_first(r, "plt00020", "Cell_D"), lambda r: tools.combine("plt00010", "plt00020", "out_cmb")),
+    # truncated binary files: every selection form of colander (all fields / one field / neighbouring fields / reordered)
+    ("colander-truncated-all", lambda r: _truncate(r, "plt00010", "Cell_D", 24), lambda r: tools.colander("plt00010", "out_col", ["all"])),
+    ("colander-truncated-one", lambda r: _truncate(r, "plt00010", "Cell_D", 24), lambda r: tools.colander("plt00010", "out_col", ["volFrac"])),
+    ("colander-truncated-neighbours", lambda r: _truncate(r, "plt00010", "Cell_D", 8), lambda r: tools.colander("plt00010", "out_col", ["temp", "volFrac"])),
+    ("colander-truncated-reordered", lambda r: _truncate(r, "plt00010", "Cell_D", 8), lambda r: tools.colander("plt00010", "out_col", ["volFrac", "density"])),
+    ("colander2d-truncated", lambda r: _truncate(r, "plt2d00030", "Cell_D", 16), lambda r: tools.colander("plt2d00030", "out_col2", ["all"])),
+    ("colander-truncated-level1", lambda r: _truncate(r, "plt00010", "Cell_D", 8, level="Level_1", which=-1), lambda r: tools.colander("plt00010", "out_col", ["density", "temp"])),
+    ("combine-truncated-first", lambda r: _truncate(r, "plt00010", "Cell_D", 16), lambda r: tools.combine("plt00010", "plt00020", "out_cmb")),
+    ("combine-truncated-second", lambda r: _truncate(r, "plt00020", "Cell_D", 16), lambda r: tools.combine("plt00010", "plt00020", "out_cmb")),
+    ("combine-bybox-truncated", lambda r: _truncate(r, "plt00040", "Cell_D", 16), lambda r: tools.combine("plt00010", "plt00040", "out_cmb4")),
+    ("chef-truncated", lambda r: _truncate(r, "plt00010", "Cell_D", 16), lambda r: tools.chef("plt00010", "rec.py", "out_ck")),
+    ("chk2plt-truncated", lambda r: _truncate(r, "chk00005", "state_D", 16), lambda r: tools.chk2plt("chk00005", "out_plt")),
 ]
 
 
